@@ -103,7 +103,14 @@ fn main() {
          sent in mixed case by DnsRequest::new; 512-byte receive buffer - the socket cuts longer datagrams, the cut bytes are \
          what is judged; max_retries 1 and 5; retry interval 100/500 ms via floor and request option; 700 ms timeout): default \
          configuration all schedules of length <= 4 (thorough 5) over 61 symbols, every other one length <= 3 (thorough 4), \
-         enumerated depth-first over well-formed prefixes (tie placements for schedules of length <= 4). (b) messages with a pending id and TC / SERVFAIL / NOTIFY / UPDATE \
+         enumerated depth-first over well-formed prefixes; plus composed question sections: 127 further kinds = a reply from \
+         the right source with the right id whose question section is an ordered pair, or an ordered triple containing the \
+         exact echo, over {exact echo, copy with the 1st letter's case flipped, copy with the 2nd letter's case flipped, other \
+         name, other type, other class}, default and two-question configuration, randomisation on/off: every schedule of \
+         length <= 2 with at least one of them and (thorough) of length 3 with exactly one, over all kinds + wait; the \
+         predicate stays literal - under randomisation a case-flipped copy is not an asked question (never Ok; ending the \
+         query with the case error is not judged), with randomisation off case-insensitive repeats are admissible and not \
+         judged (tie placements for schedules of length <= 4). (b) messages with a pending id and TC / SERVFAIL / NOTIFY / UPDATE \
          opcode / a foreign question must reach the request like any response (routing is by id), a QR=0 message with a \
          pending id may be dropped or delivered but reaches nobody else. (c) DnsExchange + DnsExchangeBackground over the \
          same multiplexer and scripted stream: events request (through the handle) / drop handle / drop response stream i / \
@@ -153,6 +160,9 @@ fn main() {
         "udp:cfg:two-questions:ok",
         "udp:cfg:receive-buffer-512:err:attempts-exceeded",
         "udp:transmissions=5",
+        "udp:composed-question-section:rand-on:ok",
+        "udp:composed-question-section:rand-on:err:case-mismatch",
+        "udp:composed-question-section:rand-off:ok",
         "ex:response-delivered",
         "ex:pending-failed-on-close",
         "ex:request-refused-busy",
